@@ -4,7 +4,9 @@
 //! planted in / removed from the cache directory between operations.
 //!   c19 hist <step>;<step>;…        (H = c cached handle | u uncached handle; t = 0..4; cb = 0|1 cacheable flag)
 //!     w,H,t,id,cb,data   d,H,t,id,cb   r,H,t,id   p,H,t,id,cb,off,len   l,H,t
-//!     s,path,data  plant a file in the cache dir     x,path  delete a file of the cache dir
+//!     s,path,data  plant a file in the cache dir     x,path  delete a file / symlink of the cache dir
+//!     m,path  plant a DIRECTORY (mkdir -p)     k,path  plant a DANGLING SYMLINK     t,path,n  cut a regular file to its first n bytes
+//!     y,path,data  plant a SYMLINK to a regular file (outside the cache dir) holding data
 //!     f  cache-dir layout      b  backend contents
 //! Direct oracles: a shadow `MemBackend` receives every operation uncached — the real store must always equal
 //! the shadow's; results through the cached handle must equal the shadow's whenever the file's type has been
@@ -37,6 +39,7 @@ fn is_cacheable(t: FileType) -> bool {
     matches!(t, FileType::Snapshot | FileType::Index)
 }
 
+/// regular files `path:size`; directories at depth >= 3 (below `<type>/<xx>/`: only plants create those) as `path/`
 fn layout(root: &Path) -> String {
     fn walk(dir: &Path, rel: &str, out: &mut Vec<String>) {
         let Ok(rd) = std::fs::read_dir(dir) else { return };
@@ -45,9 +48,18 @@ fn layout(root: &Path) -> String {
             let r = if rel.is_empty() { name.clone() } else { format!("{rel}/{name}") };
             let Ok(ft) = e.file_type() else { continue };
             if ft.is_dir() {
+                if r.split('/').count() >= 3 {
+                    out.push(format!("{r}/"));
+                }
                 walk(&e.path(), &r, out);
             } else if ft.is_file() {
                 out.push(format!("{r}:{}", e.metadata().map(|m| m.len()).unwrap_or(0)));
+            } else if ft.is_symlink() {
+                // dangling: `path@`; to a regular file: `path@<size>`
+                match std::fs::metadata(e.path()) {
+                    Ok(m) if m.is_file() => out.push(format!("{r}@{}", m.len())),
+                    _ => out.push(format!("{r}@")),
+                }
             }
         }
     }
@@ -106,6 +118,7 @@ fn hist(steps: &str) -> String {
     let cached = rustic_core::verif::cache::cached_backend(Arc::new(be.clone()), cache);
     // dirty[t]: the cache dir or the repository changed behind the cached handle since its last listing of t
     let mut dirty = [false; 5];
+    let mut n_stash = 0usize;
     let mut fail: Option<String> = None;
     let mut out = Vec::new();
     for s in steps.split(';') {
@@ -133,6 +146,66 @@ fn hist(steps: &str) -> String {
                 _ = std::fs::remove_file(croot.join(path));
                 "ok".into()
             }
+            ["m", path] => {
+                // a DIRECTORY planted in the cache dir (`mkdir -p`); never makes the cache "dirty": whatever lies below or at
+                // an entry path that is not a regular file must not change any result
+                if !good_path(path) {
+                    return "bad-op".into();
+                }
+                match std::fs::create_dir_all(croot.join(path)) {
+                    Ok(()) => "ok".into(),
+                    Err(_) => "err".into(),
+                }
+            }
+            ["k", path] => {
+                // a DANGLING SYMLINK planted in the cache dir; its target lies in a directory that does not exist, so nothing can be
+                // created through it either.  Never marks the cache dirty.
+                if !good_path(path) {
+                    return "bad-op".into();
+                }
+                let p = croot.join(path);
+                if let Some(par) = p.parent() {
+                    _ = std::fs::create_dir_all(par);
+                }
+                match std::os::unix::fs::symlink(tmp.path().join("void").join("x"), &p) {
+                    Ok(()) => "ok".into(),
+                    Err(_) => "err".into(),
+                }
+            }
+            ["y", path, data] => {
+                // a SYMLINK TO A REGULAR FILE planted in the cache dir: the file (holding `data`) lies outside the cache dir, one per link
+                let Some(data) = data_of(data) else { return "bad-op".into() };
+                if !good_path(path) {
+                    return "bad-op".into();
+                }
+                let p = croot.join(path);
+                if let Some(par) = p.parent() {
+                    _ = std::fs::create_dir_all(par);
+                }
+                n_stash += 1;
+                let target = tmp.path().join(format!("stash{n_stash}"));
+                dirty = [true; 5];
+                match std::fs::write(&target, data).and_then(|()| std::os::unix::fs::symlink(&target, &p)) {
+                    Ok(()) => "ok".into(),
+                    Err(_) => "err".into(),
+                }
+            }
+            ["t", path, n] => {
+                // truncate a regular file of the cache dir to its first n bytes (no-op when it is shorter / not a file)
+                let Ok(n) = n.parse::<usize>() else { return "bad-op".into() };
+                if !good_path(path) {
+                    return "bad-op".into();
+                }
+                let p = croot.join(path);
+                if p.is_file() && !p.is_symlink() {
+                    let d = std::fs::read(&p).unwrap_or_default();
+                    if n < d.len() {
+                        dirty = [true; 5];
+                        _ = std::fs::write(&p, &d[..n]);
+                    }
+                }
+                "ok".into()
+            }
             ["f"] => layout(&croot),
             ["b"] => store_str(&be),
             [op, h, t, ..] if ["w", "d", "r", "p", "l"].contains(op) && ["c", "u"].contains(h) => {
@@ -140,6 +213,43 @@ fn hist(steps: &str) -> String {
                 let ti = ft_idx(t) as usize;
                 let use_cache = *h == "c";
                 let f2 = f.clone();
+                // per-file soundness of the cache entry BEFORE a read through the cached handle (theorems
+                // entry_coherent_read_equiv / prefix_entry_ranged_read_equiv / dir_entry_*): nothing, a directory or another
+                // non-file object at the entry path, the repository's bytes, or — for a non-empty ranged read — a prefix of
+                // them (a truncated entry): then the cached result must equal the uncached one, listed or not.
+                let mut sound = false;
+                if use_cache && matches!(*op, "r" | "p") {
+                    let Some(id) = f.get(3).and_then(|s| id_of(s)) else { return "bad-op".into() };
+                    let cache_on = is_cacheable(t) || (*op == "p" && f.get(4) == Some(&"1"));
+                    let hex_id = id.to_hex();
+                    let ep = croot.join(t.dirname()).join(&hex_id[0..2]).join(hex_id.as_str());
+                    let stored = be.store().get(&(ft_idx(t), id)).cloned();
+                    sound = !cache_on
+                        || match std::fs::metadata(&ep) {
+                            // (follows symlinks, as the cache reads do)
+                            Err(_) => true,
+                            Ok(m) if m.is_file() => {
+                                let b = std::fs::read(&ep).unwrap_or_default();
+                                match &stored {
+                                    Some(d) if *op == "r" => d[..] == b[..],
+                                    Some(d) => d.starts_with(&b),
+                                    None => false,
+                                }
+                            }
+                            Ok(_) => true,
+                        };
+                }
+                if use_cache && *op == "w" {
+                    // a directory / dangling symlink at the TEMP path blocks the cache write: an overwrite with other bytes (outside the
+                    // statement: ids are content hashes) then leaves the old entry behind — not compared until the next listing
+                    if let (Some(id), Some(data)) = (f.get(3).and_then(|s| id_of(s)), f.get(5).and_then(|s| data_of(s))) {
+                        let hex_id = id.to_hex();
+                        let tp = croot.join(t.dirname()).join(&hex_id[0..2]).join(format!("{}-tmp-", hex_id.as_str()));
+                        if (tp.is_dir() || tp.is_symlink()) && be.store().get(&(ft_idx(t), id)).is_some_and(|d| d[..] != data[..]) {
+                            dirty[ti] = true;
+                        }
+                    }
+                }
                 let handle: Arc<dyn WriteBackend> = if use_cache { cached.clone() } else { Arc::new(be.clone()) };
                 let res = std::panic::catch_unwind(std::panic::AssertUnwindSafe(|| do_op(&*handle, &f2)));
                 let obs = match res {
@@ -171,7 +281,7 @@ fn hist(steps: &str) -> String {
                                 if !e.path().is_file() || sub.file_name().to_string_lossy() != name[..2] {
                                     continue;
                                 }
-                                let sz = e.metadata().map(|m| m.len()).unwrap_or(0);
+                                let sz = std::fs::metadata(e.path()).map(|m| m.len()).unwrap_or(0);
                                 match list.get(&id) {
                                     None => fail = fail.or(Some("oracle-fail:stale-cache-file-after-listing".into())),
                                     Some(n) if u64::from(*n) != sz => {
@@ -184,7 +294,7 @@ fn hist(steps: &str) -> String {
                     }
                     // (a zero-length range is answered by a cache file at any offset; degenerate, not compared)
                     let degenerate = *op == "p" && f.last() == Some(&"0");
-                    if !dirty[ti] && obs != want && !degenerate {
+                    if (!dirty[ti] || sound) && obs != want && !degenerate {
                         fail = fail.or(Some(format!("oracle-fail:cached-{op}-differs-from-uncached:{obs}-vs-{want}").chars().take(90).collect()));
                     }
                     if obs == "panic" {
@@ -234,6 +344,7 @@ pub fn repo_level(seed: u64) -> String {
     let opts_of = |cached: bool| if cached { cached_opts.clone() } else { uncached_opts.clone() };
     let mut sources: Vec<(Id, MemSource)> = Vec::new();
     let mut n_snap = 0usize;
+    let mut n_stash = 0usize;
     let steps = 4 + rng.below(5);
     for step in 0..steps {
         let cached = rng.chance(1, 2);
@@ -249,7 +360,19 @@ pub fn repo_level(seed: u64) -> String {
                 }
                 files.sort();
                 for f in files {
-                    match rng.below(8) {
+                    match rng.below(11) {
+                        5 | 6 => {
+                            // a symlink to a copy (5: intact, 6: cut to half) in place of the entry
+                            if f.is_file() && !f.is_symlink() {
+                                let d = std::fs::read(&f).unwrap_or_default();
+                                n_stash += 1;
+                                let target = tmp.path().join(format!("stash{n_stash}"));
+                                let keep = if rng.chance(1, 2) { d.len() } else { d.len() / 2 };
+                                if std::fs::write(&target, &d[..keep]).is_ok() && std::fs::remove_file(&f).is_ok() {
+                                    _ = std::os::unix::fs::symlink(&target, &f);
+                                }
+                            }
+                        }
                         0 => {
                             let d = std::fs::read(&f).unwrap_or_default();
                             _ = std::fs::write(&f, &d[..d.len() / 2]);
@@ -260,6 +383,18 @@ pub fn repo_level(seed: u64) -> String {
                             _ = std::fs::write(&f, d);
                         }
                         2 => _ = std::fs::remove_file(&f),
+                        3 => {
+                            // a directory in place of the entry (never cleaned up: not a regular file)
+                            if f.is_file() && std::fs::remove_file(&f).is_ok() {
+                                _ = std::fs::create_dir(&f);
+                            }
+                        }
+                        4 => {
+                            // a dangling symlink in place of the entry
+                            if f.is_file() && std::fs::remove_file(&f).is_ok() {
+                                _ = std::os::unix::fs::symlink(tmp.path().join("void").join("x"), &f);
+                            }
+                        }
                         _ => {}
                     }
                 }
@@ -274,6 +409,13 @@ pub fn repo_level(seed: u64) -> String {
                     if rng.chance(1, 2) {
                         _ = std::fs::write(root.join(t).join(hex::encode(rng.bytes(32))), b"misplaced");
                     }
+                    // a directory at the entry path of an id the repository does not (yet) have
+                    let id2 = hex::encode(rng.bytes(32));
+                    _ = std::fs::create_dir_all(root.join(t).join(&id2[..2]).join(&id2));
+                    // ... and a dangling symlink at another one
+                    let id3 = hex::encode(rng.bytes(32));
+                    _ = std::fs::create_dir_all(root.join(t).join(&id3[..2]));
+                    _ = std::os::unix::fs::symlink(tmp.path().join("void").join("x"), root.join(t).join(&id3[..2]).join(&id3));
                 }
             }
         }
@@ -372,11 +514,19 @@ pub fn repo_level(seed: u64) -> String {
 
 // ------------------------------------------------------------------------------------------ generator
 
+/// the first size >= `n` that no version (written or planted with random bytes) of file `(t, id)` had so far in this history
+fn unused_size(used: &[(u8, String, usize)], t: u8, id: &str, mut n: usize) -> usize {
+    while used.iter().any(|(a, b, l)| *a == t && b == id && *l == n) {
+        n += 1;
+    }
+    n
+}
+
 pub fn generate(thorough: bool, rng: &mut Rng, ops: &mut Vec<String>, stats: &mut Stats) {
     // two handles strictly alternating: every operation of the cached handle is preceded by a change made through the
     // uncached handle (a new file, a removal, an overwrite with another size) of a type the cache keeps, so the cache
     // is stale between every pair of cached operations
-    let n_alt = if thorough { 1500 } else { 150 };
+    let n_alt = if thorough { 6000 } else { 150 };
     for _ in 0..n_alt {
         let n = if thorough { rng.range(4, 30) } else { rng.range(3, 14) } as usize;
         let mut live: Vec<(u8, String, usize)> = Vec::new();
@@ -434,6 +584,22 @@ pub fn generate(thorough: bool, rng: &mut Rng, ops: &mut Vec<String>, stats: &mu
             } else {
                 (ut, uid, ulen)
             };
+            if rng.chance(1, 6) {
+                // a directory where the entry of that file belongs (stays there for the rest of the history)
+                let dir = ["config", "index", "keys", "snapshots", "data"][rt as usize];
+                if rng.chance(2, 3) {
+                    stats.hit("alt.dir-at-entry");
+                    steps.push(format!("m,{dir}/{}/{rid}", &rid[..2]));
+                } else if rng.chance(1, 2) {
+                    // ... or a dangling symlink (gone with the next cache write / removal of that file)
+                    stats.hit("alt.link-at-entry");
+                    steps.push(format!("k,{dir}/{}/{rid}", &rid[..2]));
+                } else {
+                    // ... or a symlink to a foreign file of a size no version of that file ever has (a stale "entry")
+                    stats.hit("alt.link-to-file-at-entry");
+                    steps.push(format!("y,{dir}/{}/{rid},g{}.{}", &rid[..2], rng.below(1 << 30), 1000 + rng.below(1000)));
+                }
+            }
             match rng.below(5) {
                 0 | 1 => {
                     stats.hit("alt.c-read-full");
@@ -459,11 +625,14 @@ pub fn generate(thorough: bool, rng: &mut Rng, ops: &mut Vec<String>, stats: &mu
         steps.push("b".into());
         ops.push(format!("c19 hist {}", steps.join(";")));
     }
-    let n_hist = if thorough { 4000 } else { 500 };
+    let n_hist = if thorough { 20000 } else { 500 };
     for _ in 0..n_hist {
         let n = if thorough { rng.range(4, 45) } else { rng.range(3, 25) } as usize;
         let mut pool: Vec<String> = Vec::new();
         let mut written: Vec<(u8, String, usize)> = Vec::new();
+        let mut sizes_used: Vec<(u8, String, usize)> = Vec::new();
+        // the data token of the last write of each key (to plant intact copies)
+        let mut tokens: Vec<(u8, String, String)> = Vec::new();
         let mut steps: Vec<String> = Vec::new();
         let dirs = ["config", "index", "keys", "snapshots", "data"];
         for _ in 0..n {
@@ -498,18 +667,26 @@ pub fn generate(thorough: bool, rng: &mut Rng, ops: &mut Vec<String>, stats: &mu
                         // an overwrite always changes the size: same-size different content under one id is outside
                         // the statement (ids are content hashes)
                         stats.hit("op.overwrite");
-                        let (_, oid, olen) = rng.pick(&written).clone();
-                        if len == olen {
-                            len += 1;
-                        }
+                        let (_, oid, _) = rng.pick(&written).clone();
                         oid
+                    } else if !pool.is_empty() && rng.chance(1, 6) {
+                        // an id seen before (read / removed / planted, e.g. a directory at its entry path) but possibly never written
+                        stats.hit("op.write.pool-id");
+                        rng.pick(&pool).clone()
                     } else {
                         fresh(rng, &mut pool)
                     };
+                    // a size never used for this key before in the history — the cache may still hold ANY earlier version (written
+                    // through the cached handle, then replaced / removed and re-created through the uncached one), and an
+                    // earlier version of the same size with other bytes is outside the statement
+                    len = unused_size(&sizes_used, t, &id, len);
+                    sizes_used.push((t, id.clone(), len));
                     let data = if len > 64 { format!("g{}.{len}", rng.below(1 << 30)) } else { hex(&rng.bytes(len)) };
                     stats.hit(format!("op.write.{h}"));
                     written.retain(|(a, b, _)| !(*a == t && *b == id));
                     written.push((t, id.clone(), len));
+                    tokens.retain(|(a, b, _)| !(*a == t && *b == id));
+                    tokens.push((t, id.clone(), data.clone()));
                     steps.push(format!("w,{h},{t},{id},{},{data}", cb_of(t, &id)));
                 }
                 5 | 6 => {
@@ -553,19 +730,145 @@ pub fn generate(thorough: bool, rng: &mut Rng, ops: &mut Vec<String>, stats: &mu
                     let (t2, id, len) = known(rng, &written, &mut pool, t);
                     let dir = dirs[t2 as usize];
                     let proper = format!("{dir}/{}/{id}", &id[..2]);
-                    match rng.below(8) {
+                    match rng.below(20) {
+                        18 => {
+                            // a SYMLINK TO A REGULAR FILE at the proper entry path: an intact copy of the last version written, or
+                            // foreign bytes of a size no version has (a stale / wrong-sized "entry" that a listing must remove)
+                            if let Some((_, _, tok)) = tokens.iter().find(|(a, b, _)| *a == t2 && *b == id).filter(|_| rng.chance(1, 3)) {
+                                stats.hit("plant.link-to-copy-at-entry");
+                                steps.push(format!("y,{proper},{tok}"));
+                            } else {
+                                stats.hit("plant.link-to-stale-at-entry");
+                                let n = unused_size(&sizes_used, t2, &id, rng.below(200) as usize);
+                                sizes_used.push((t2, id.clone(), n));
+                                steps.push(format!("y,{proper},g{}.{n}", rng.below(1 << 30)));
+                            }
+                        }
+                        19 => match rng.below(3) {
+                            0 => {
+                                // the next cache write of that id goes THROUGH the link and the link becomes the entry
+                                stats.hit("plant.link-to-file-at-tmp-path");
+                                steps.push(format!("y,{proper}-tmp-,0707"));
+                            }
+                            1 => {
+                                stats.hit("plant.link-to-file-at-parent");
+                                steps.push(format!("y,{dir}/{},01", &id[..2]));
+                            }
+                            _ => {
+                                stats.hit("plant.link-to-stale-at-fresh-entry");
+                                let id = fresh(rng, &mut pool);
+                                let n = rng.below(300) as usize;
+                                sizes_used.push((t2, id.clone(), n));
+                                steps.push(format!("y,{dir}/{}/{id},g{}.{n}", &id[..2], rng.below(1 << 30)));
+                            }
+                        },
+                        16 => {
+                            // a regular FILE where a parent directory of the entry path belongs (`<type>/<xx>`, rarely `<type>`):
+                            // nothing below can be cached any more (fails when the directory already exists)
+                            if rng.chance(5, 6) {
+                                stats.hit("plant.file-at-parent");
+                                steps.push(format!("s,{dir}/{},0102", &id[..2]));
+                            } else {
+                                stats.hit("plant.file-at-type-dir");
+                                steps.push(format!("s,{dir},01"));
+                            }
+                        }
+                        17 => {
+                            // ... or a dangling symlink
+                            if rng.chance(5, 6) {
+                                stats.hit("plant.link-at-parent");
+                                steps.push(format!("k,{dir}/{}", &id[..2]));
+                            } else {
+                                stats.hit("plant.link-at-type-dir");
+                                steps.push(format!("k,{dir}"));
+                            }
+                        }
+                        13 => {
+                            // a DANGLING SYMLINK at the proper entry path of a known id
+                            stats.hit("plant.link-at-entry");
+                            steps.push(format!("k,{proper}"));
+                        }
+                        14 => {
+                            if rng.chance(1, 2) {
+                                stats.hit("plant.link-at-fresh-entry");
+                                let id = fresh(rng, &mut pool);
+                                steps.push(format!("k,{dir}/{}/{id}", &id[..2]));
+                            } else {
+                                stats.hit("plant.link-at-tmp-path");
+                                steps.push(format!("k,{proper}-tmp-"));
+                            }
+                        }
+                        15 => {
+                            if rng.chance(1, 2) {
+                                stats.hit("plant.link-misplaced");
+                                steps.push(format!("k,{dir}/{id}"));
+                            } else {
+                                stats.hit("plant.link-below-entry");
+                                steps.push(format!("k,{proper}/sub"));
+                            }
+                        }
+                        8 | 9 => {
+                            // a DIRECTORY at the proper entry path of a known id (written, removed, or only read so far)
+                            stats.hit("plant.dir-at-entry");
+                            steps.push(format!("m,{proper}"));
+                        }
+                        10 => {
+                            // ... of an id nothing was done with yet (it joins the pool: later written / read / removed)
+                            stats.hit("plant.dir-at-fresh-entry");
+                            let id = fresh(rng, &mut pool);
+                            steps.push(format!("m,{dir}/{}/{id}", &id[..2]));
+                        }
+                        11 => {
+                            // the entry cut to a PREFIX of itself (what an interrupted copy / a full disk leaves)
+                            stats.hit("plant.cut-to-prefix");
+                            // (preferably of a file the cache keeps)
+                            let kept: Vec<(u8, String, usize)> =
+                                written.iter().filter(|(a, b, l)| *l > 0 && (matches!(*a, 1 | 3) || cb_of(*a, b) == 1)).cloned().collect();
+                            let (t2, id, len) = if kept.is_empty() { (t2, id, len) } else { rng.pick(&kept).clone() };
+                            let proper = format!("{}/{}/{id}", dirs[t2 as usize], &id[..2]);
+                            let cut = rng.below(len as u64 + 1) as usize;
+                            steps.push(format!("t,{proper},{cut}"));
+                            if cut < len && rng.chance(2, 3) {
+                                // ... and a ranged read through the cached handle that reaches beyond the cut
+                                stats.hit("op.read-partial.beyond-cut");
+                                let off = rng.below(cut as u64 + 1) as usize;
+                                let end = cut + 1 + rng.below((len - cut) as u64) as usize;
+                                steps.push(format!("p,c,{t2},{id},{},{off},{}", cb_of(t2, &id), end - off));
+                            }
+                        }
+                        12 => match rng.below(3) {
+                            0 => {
+                                stats.hit("plant.dir-at-tmp-path");
+                                steps.push(format!("m,{proper}-tmp-"));
+                            }
+                            1 => {
+                                stats.hit("plant.dir-misplaced");
+                                steps.push(format!("m,{dir}/{id}"));
+                            }
+                            _ => {
+                                stats.hit("plant.dir-below-entry");
+                                steps.push(format!("m,{proper}/sub"));
+                            }
+                        },
                         0 => {
                             stats.hit("plant.truncated");
-                            steps.push(format!("s,{proper},g{}.{}", rng.below(1 << 30), len / 2));
+                            // (planted bytes are random: no later version of that file may have their size — see `sizes_used`)
+                            let n = unused_size(&sizes_used, t2, &id, len / 2);
+                            sizes_used.push((t2, id.clone(), n));
+                            steps.push(format!("s,{proper},g{}.{n}", rng.below(1 << 30)));
                         }
                         1 => {
                             stats.hit("plant.longer");
-                            steps.push(format!("s,{proper},g{}.{}", rng.below(1 << 30), len + 1 + rng.below(9) as usize));
+                            let n = unused_size(&sizes_used, t2, &id, len + 1 + rng.below(9) as usize);
+                            sizes_used.push((t2, id.clone(), n));
+                            steps.push(format!("s,{proper},g{}.{n}", rng.below(1 << 30)));
                         }
                         2 => {
                             stats.hit("plant.stale");
                             let id = fresh(rng, &mut pool);
-                            steps.push(format!("s,{dir}/{}/{id},g{}.{}", &id[..2], rng.below(1 << 30), rng.below(300)));
+                            let n = rng.below(300) as usize;
+                            sizes_used.push((t2, id.clone(), n));
+                            steps.push(format!("s,{dir}/{}/{id},g{}.{n}", &id[..2], rng.below(1 << 30)));
                         }
                         3 => {
                             stats.hit("plant.tmp-name");
@@ -603,7 +906,7 @@ pub fn generate(thorough: bool, rng: &mut Rng, ops: &mut Vec<String>, stats: &mu
         stats.hit(format!("hist.len.{}", Stats::bucket(steps.len())));
         ops.push(format!("c19 hist {}", steps.join(";")));
     }
-    let n_repo = if thorough { 60 } else { 6 };
+    let n_repo = if thorough { 200 } else { 6 };
     for _ in 0..n_repo {
         stats.hit("repo-level");
         ops.push(format!("c19 repo {}", rng.below(1 << 32)));
